@@ -225,6 +225,7 @@ void observe(const Dom& D, Obs& X, bool checkUnchanged, bool full) {
         try {
             std::vector<Val> tv = tableByVar(D, h->e, o);
             std::vector<Val> tl = tableOf(L, h->e);
+            if (checkUnchanged && !h->tv.empty() && tv != h->tv) markSuspect();
             emit("table %s %s %s", h->name.c_str(), X.name.c_str(), tableStr(tv).c_str());
             if (checkUnchanged) emit("unchanged %s", h->name.c_str());
             emit("table %s@L %s %s", h->name.c_str(), X.name.c_str(), tableStr(tl).c_str());
@@ -235,6 +236,7 @@ void observe(const Dom& D, Obs& X, bool checkUnchanged, bool full) {
             emit("expect evaluate.%s ok %s", h->name.c_str(), errName(e));
             STATS.hit(std::string("evaluate.err.") + errName(e));
             bad.insert(h->name);
+            markSuspect();
         }
     }
     if (full) {
@@ -276,6 +278,11 @@ void populate(const Dom& D, Obs& X, Rng& r, int n, const char* prefix) {
                 // near-duplicate of an earlier edge: shares most of its nodes
                 h->tv = X.held[r.below(unsigned(X.held.size() - 1))]->tv;
                 h->tv[r.below(unsigned(h->tv.size()))] = randomValue(r, X.k, true);
+            } else if (r.chance(2, 5)) {
+                // structured: identity patterns / free / fixed variables, so that the nodes rebuilt by a swap collide
+                // with nodes that already exist (the duplicate-resolution path of the variable swap)
+                h->tv = structuredTable(r, D, X.k, dens[1 + r.below(4)]);
+                STATS.hit("edge.structured");
             } else h->tv = randomTable(r, D, X.k, dens[r.below(5)]);
             buildByVar(D, X.F, X.k, h->tv, h->e);
             emit("input %s %s", h->name.c_str(), tableStr(h->tv).c_str());
@@ -657,7 +664,20 @@ int run(const Args& A) {
         // unsupported kinds: must refuse and stay intact
         { Kind k; k.rel = true; k.rt = range_type::INTEGER; k.el = edge_labeling::EVPLUS; k.rr = reduction_rule::FULLY_REDUCED; kinds.push_back(k); }
     }
+    // --only relations: only the MT relation kinds (the variable swap of mtmxd forests: duplicate resolution,
+    // mixed sizes, identity patterns), for a run with many more cases than the mixed default
+    if (A.get("only") == "relations") {
+        std::vector<Kind> rk;
+        for (auto& k : kinds) if (k.rel && !isEVP(k)) rk.push_back(k);
+        for (auto& k : kinds) if (k.rel && !isEVP(k) && k.rr == reduction_rule::IDENTITY_REDUCED) rk.push_back(k);   // twice
+        kinds = rk;
+    }
     const long nk = long(kinds.size());
+    // --screen N: see common.h (SCREENING); the probe cases before this point are always written out
+    if (A.getl("screen", 0) > 0) {
+        SCREEN().on = true; SCREEN().sampleEvery = A.getl("screen", 0);
+        screenInstallCrashFlush();
+    }
     long rounds = A.thorough() ? 10 : 5;
     long ncases = A.cases > 0 ? A.cases : PROBES + 8 * nk * rounds;
     for (long c = PROBES; c < ncases; c++) {
@@ -802,7 +822,8 @@ int run(const Args& A) {
                 if (now != gstore && getenv("MDH_DEBUG")) { emit("note gstore-before %s", gstore.c_str()); emit("note gstore-after %s", now.c_str()); }
                 if (last || (full && r.chance(1, 4))) observe(D, G, true, last);
             }
-            if (!ok && !unsupported && !levelSwap) STATS.hit("reorder.unexpected-error");
+            if (!ok && !unsupported && !levelSwap) { STATS.hit("reorder.unexpected-error"); markSuspect(); }
+            if (orderOf(X.F) != target && ok) markSuspect();
             // work in the reordered forest: rebuild a held function from scratch (must be the same node),
             // operate on held edges (oracle: the by-variable tables)
             if (full && !X.held.empty()) {
@@ -811,6 +832,7 @@ int run(const Args& A) {
                 buildByVar(D, X.F, X.k, h->tv, again);
                 emit("table R%zu F %s", step, tableStr(tableByVar(D, again, orderOf(X.F))).c_str());
                 emitEq(h->name, "R" + std::to_string(step), h->e, again);
+                if (!(h->e == again)) markSuspect();
                 STATS.hit("rebuild.eq");
                 Held* a = X.held[r.below(unsigned(X.held.size()))];
                 Held* b = X.held[r.below(unsigned(X.held.size()))];
@@ -862,6 +884,7 @@ int run(const Args& A) {
                     std::string nm = "Z" + std::to_string(i++);
                     emit("table %s F %s", nm.c_str(), tableStr(tableByVar(D, again, orderOf(X.F))).c_str());
                     emitEq(h->name, nm, h->e, again);
+                    if (!(h->e == again)) markSuspect();
                 }
                 for (size_t a = 0; a < X.held.size(); a++)
                     for (size_t b = a + 1; b < X.held.size(); b++)
@@ -877,10 +900,15 @@ int run(const Args& A) {
         G.F->removeAllComputeTableEntries();
         emit("expect leak-F 0 %ld", X.F->getCurrentNumNodes());
         emit("expect leak-G 0 %ld", G.F->getCurrentNumNodes());
+        if (X.F->getCurrentNumNodes() != 0 || G.F->getCurrentNumNodes() != 0) markSuspect();
         endCase();
         forest::destroy(X.F);
         forest::destroy(G.F);
         D.destroy();
+    }
+    if (SCREEN().on) {
+        emit("note screening kept %ld dropped %ld suspects %ld", SCREEN().kept, SCREEN().dropped, SCREEN().suspects);
+        STATS.hit("screen.kept", SCREEN().kept); STATS.hit("screen.dropped", SCREEN().dropped); STATS.hit("screen.suspects", SCREEN().suspects);
     }
     libCleanup();
     return 0;
